@@ -124,6 +124,10 @@ def check_prims(ctx, rep):
             cmp("sum", l, model.call("prim_seq", [13, l, [], []]), sum(l))
             it = iter(l)
             cmp("next(iter)", l, _res(model.call("prim_seq", [14, l, [], []])), _py(lambda: [next(it), list(it)]) if l else ERR)
+    if "gen_SubstreamsInfo_retrieve" in vlib.fn_table():      # stage 3 of the third wave present
+        for a in range(-2, 7):
+            for b in range(-3, 7):
+                cmp("range(a, b, -1)", (a, b), model.call("prim_seq", [15, [], [a], [b]]), list(range(a, b, -1)))
     for ln in (0, 3, 4, 5, 7, 8, 9):
         l = [rng.randrange(256) for _ in range(ln)]
         cmp("unpack('<L')", l, _res(model.call("prim_seq", [5, l, [], []])), _py(lambda: struct.unpack("<L", bytes(l))[0]))
